@@ -648,3 +648,36 @@ FN_OVERLAYS['code::code_nth'] = dict(proofs={'body_start': '''        proof {
             }
         }
 '''})
+
+# ------------------------------------------------------------------ C15: allocation bounded by the operands an instruction consumes, not by their magnitude
+# bound.alloc: a vector created by a step is no longer than (total length of the vector operands consumed) + (number of scalar operands consumed) + 1
+def add_alloc_bound(name, x, vec_operands, n_scalar, cond=None):
+    r = ROWS[name]
+    bound = ' + '.join(['%s.len()' % v for v in vec_operands] + ['%d' % (n_scalar + 1)])
+    pre = '(S1.%s.len() >= 1 && S1.%s.len() > S0.%s.len() - %d)' % (x, x, x, len(vec_operands))
+    if cond: pre = '(%s && %s)' % (pre, cond)
+    r.clauses.append(('{C15}bound.alloc', '%s ==> top(S1.%s, 0).values@.len() <= %s' % (pre, x, bound)))
+    if 'C15' not in r.props: r.props.append('C15')
+
+
+for T, (x, e, sid, one, zero) in VEC.items():
+    for nm in ['ONES', 'ZEROS']:
+        add_alloc_bound(T + '.' + nm, x, [], 1, 'S0.int.len() >= 1 && top(S0.int, 0) > 0')
+for nm, x, path, V, op in ELEMENTWISE:
+    add_alloc_bound(nm, x, ['top(S0.%s, 1).values@' % x, 'top(S0.%s, 0).values@' % x], 1, 'S0.%s.len() >= 2 && S0.int.len() >= 1' % x)
+add_alloc_bound('FLOATVECTOR./', 'floatvec', ['top(S0.floatvec, 1).values@', 'top(S0.floatvec, 0).values@'], 1, 'S0.floatvec.len() >= 2 && S0.int.len() >= 1')
+add_alloc_bound('BOOLVECTOR.NOT', 'boolvec', ['top(S0.boolvec, 0).values@'], 1, 'S0.boolvec.len() >= 1 && S0.int.len() >= 1')
+for T in ['INTVECTOR', 'FLOATVECTOR']:
+    x = VEC[T][0]
+    r = ROWS[T + '.APPEND']
+    r.clauses.append(('{C15}bound.alloc', '(S0.%s.len() >= 1 && S1.%s.len() >= 1) ==> top(S1.%s, 0).values@.len() <= top(S0.%s, 0).values@.len() + 1' % (x, x, x, x)))
+    r.props.append('C15')
+ROWS['INTVECTOR.FROMINT'].clauses.append(('{C15}bound.alloc', 'S0.int.len() >= 1 ==> top(S1.intvec, 0).values@.len() <= S0.int.len()'))
+ROWS['INTVECTOR.SET*INSERT'].clauses.append(('{C15}bound.alloc', '(S0.intvec.len() >= 1 && S1.intvec.len() >= 1) ==> top(S1.intvec, 0).values@.len() <= top(S0.intvec, 0).values@.len() + 1'))
+ROWS['INTVECTOR.SET*INSERT'].props.append('C15')
+# RAND vectors: the length is the size operand (random_* contracts): bounded by operand magnitude only
+for nm, x, need in [('BOOLVECTOR.RAND', 'boolvec', 'S0.int.len() >= 1 && S0.float.len() >= 1'), ('INTVECTOR.RAND', 'intvec', 'S0.int.len() >= 3'),
+                    ('FLOATVECTOR.RAND', 'floatvec', 'S0.int.len() >= 1 && S0.float.len() >= 2')]:
+    r = ROWS[nm]
+    r.clauses.append(('{C15}bound.alloc', '(%s && S1.%s.len() == S0.%s.len() + 1) ==> top(S1.%s, 0).values@.len() <= 4' % (need, x, x, x)))
+    r.props.append('C15')
